@@ -198,6 +198,63 @@ class Impl:
         return out
 
 
+    def receive_via_socket(self, data):
+        """the udp6 receive path from the socket on: the real RecvmsgSelectorDatagramTransport._read_ready over a
+        socket object that behaves like the kernel's (hands out at most `bufsize` bytes of the datagram and says
+        so with MSG_TRUNC) -> (escaped exception name or "", list of dispatched messages)"""
+        import os
+        from aiocoap.util.asyncio.recvmsg import RecvmsgSelectorDatagramTransport
+        loop, mi6, s6, gen, sg = self.transports()
+        pktinfo = struct.pack("16sI", socket.inet_pton(socket.AF_INET6, "::1"), 0)
+
+        class KernelLikeSocket:
+            def __init__(self):
+                self.r, self.w = os.pipe()
+                self.queue = [data]
+
+            def fileno(self):
+                return self.r
+
+            def close(self):
+                pass
+
+            def recvmsg(self, bufsize, ancbufsize=0, flags=0):
+                if flags or not self.queue:
+                    raise BlockingIOError()
+                d = self.queue.pop(0)
+                return (d[:bufsize], [(socket.IPPROTO_IPV6, socket.IPV6_PKTINFO, pktinfo)],
+                        socket.MSG_TRUNC if len(d) > bufsize else 0, ("::1", 5683, 0, 0))
+
+        class Protocol:
+            """the real protocol object, minus the one-time `connection_made` it has already seen"""
+            def connection_made(self, transport):
+                pass
+
+            def connection_lost(self, exc):
+                pass
+            datagram_msg_received = staticmethod(mi6.datagram_msg_received)
+            datagram_errqueue_received = staticmethod(mi6.datagram_errqueue_received)
+            error_received = staticmethod(mi6.error_received)
+
+        sock = KernelLikeSocket()
+        del s6.got[:]
+        t = RecvmsgSelectorDatagramTransport(loop, sock, Protocol(), loop.create_future())
+        try:
+            try:
+                t._read_ready()
+            except BaseException as e:
+                return type(e).__name__, []
+            return "", list(s6.got)
+        finally:
+            try:
+                loop.remove_reader(sock.r)
+            except Exception:
+                pass
+            loop.run_until_complete(asyncio.sleep(0))      # the connection_made scheduled by the transport
+            os.close(sock.r)
+            os.close(sock.w)
+
+
 # ---------------------------------------------------------------------------------------------
 # oracle
 
@@ -666,6 +723,58 @@ def run_dec(env, rep, impl, datas, tag, malformed=False, transports=True):
     compare(env, rep, cases, lines, outs, what="Message.decode")
 
 
+def socket_datagrams(impl, rng):
+    """well-formed datagrams whose size lies around the transport's receive buffer (4096) and up to the largest
+    UDP payload, and a few malformed ones of those sizes"""
+    out = []
+    for total in (4000, 4094, 4095, 4096, 4097, 4098, 4200, 5130, 8192, 8193, 20000, 65507):
+        for opts in ((), ((11, b"big"),)):
+            head = bytes([0x51, 0x03, rng.randrange(256), rng.randrange(256), 0xAB])
+            body = b"".join(bytes([0xB0 | len(v)]) + v for (_, v) in opts)
+            room = total - len(head) - len(body) - 1
+            payload = bytes(rng.randrange(256) for _ in range(64)) * (room // 64 + 1)
+            out.append(head + body + b"\xff" + payload[:room])
+    # a datagram whose first 4096 bytes end exactly at the payload marker (prefix = marker without payload) and one
+    # whose prefix cuts an option in two: the prefixes are malformed, the datagrams are not
+    head = bytes([0x41, 0x01, 1, 2, 0x33])
+    out.append(head + bytes([0xBD, 255]) + b"a" * 268 + b"\xff" + b"p" * 4000)
+    out.append(head + b"\xff" + b"q" * (4096 - len(head) - 1) + b"r" * 10)
+    return out
+
+
+def run_socket(env, rep, impl, datas):
+    for data in datas:
+        case = {"kind": "sock", "hex": data.hex()}
+        rep.case({"kind": "sock", "len": len(data), "hex": data.hex()[:200]}, nontrivial=True, sample_every=997)
+        v, key = oracle_socket(impl, data)
+        rep.count("socket:%s" % ("over-buffer" if len(data) > 4096 else "fits"))
+        if v:
+            rep.oracle_fail(case, v, key=key)
+
+
+def oracle_socket(impl, data):
+    """what the application layer is handed for the datagram `data` arriving on the socket: the message the RFC
+    reads out of *these* bytes, or nothing -- never a message read out of a part of them"""
+    esc, got = impl.receive_via_socket(data)
+    if esc:
+        return "udp6 socket receive path let %s through for a %d byte datagram" % (esc, len(data)), "udp6-socket-" + esc
+    if len(got) > 1:
+        return "udp6 socket receive path dispatched %d messages for one datagram" % len(got), "udp6-socket-count"
+    if not got:
+        return "", None                       # dropping is always allowed at this level (decode is judged elsewhere)
+    try:
+        f = rfc.parse(data)
+    except rfc.FormatError:
+        return ("udp6 socket receive path dispatched a message for a malformed %d byte datagram" % len(data),
+                "udp6-socket-malformed-dispatched")
+    d = fields_match(f, got[0])
+    if d:
+        return ("a %d byte datagram arriving on the udp6 socket was dispatched as a different message (%s; "
+                "dispatched payload %d bytes, sent %d)" % (len(data), d, len(got[0].payload), len(f.payload)),
+                "udp6-socket-truncated")
+    return "", None
+
+
 def run_small(env, rep, impl):
     """ext / fmt / utf8: function-level correspondence of the pieces the model restates"""
     r_ext = impl.options_mod._read_extended_field_value
@@ -798,6 +907,9 @@ def _run(env, rep, impl):
         alt.append(rfc.build(f))
     run_dec(env, rep, impl, alt, "oracle-built", transports=False)
 
+    # the receive path from the socket on: datagrams around and beyond the receive buffer of the udp6 transport
+    run_socket(env, rep, impl, bw[:60] + socket_datagrams(impl, rng))
+
     # malformed stream
     exhaustive_seeds = cseeds
     others = [w for w in rw if 5 <= len(w) <= 400]
@@ -839,6 +951,8 @@ def replay(env, case):
                 if (n == 1) != (m is not None):
                     return "%s receive path dispatched %d messages (decode: %s)" % (name, n, out[:80])
             return ""
+        if case.get("kind") == "sock":
+            return oracle_socket(impl, bytes.fromhex(case["hex"]))[0]
         if case.get("kind") == "enc":
             spec = case["msg"]
             out, exc = impl.encode_msg(impl.build(spec))
